@@ -657,3 +657,52 @@ TRIAGE[("C01", "R4", "qkeras/quantizers.py::quantized_bits.range",
                   "still enumerates the two's-complement grid {0, -2**i}",
     "replayed": "quantized_bits(1,0,0).range() == [0., -1.] while the "
                 "outputs on linspace(-3,3) are {-1.0, 1.0} (real code)"}
+_QFU = "qkeras/qtools/quantized_operators/quantizer_factory.py::QuantizerFactory"
+for _c in ("Bernoulli", "QuantizedTanh", "QuantizedUlaw", "StochasticBinary"):
+  TRIAGE[("C16", "R9", _QFU, "factory-not-closed:" + _c)] = {
+      "status": "fixed", "commit": "02919f6",
+      "what_fails": "QuantizerFactory.quantizer_lookup mapped the qtools "
+                    "class %s to StochasticTernary: an operand type handed "
+                    "on through the factory (update_output_quantizer_in_"
+                    "graph does this for propagated edge types) became a "
+                    "2-bit ternary type" % _c,
+      "replayed": "f.make_quantizer(f.make_quantizer(quantized_tanh(6))) is "
+                  "a StochasticTernary (mode 2, bits 2) on the real code "
+                  "before the fix; same for quantized_ulaw, bernoulli, "
+                  "stochastic_binary"}
+TRIAGE[("C16", "R9", "qkeras/qtools/quantized_operators/quantizer_impl.py"
+        "::convert_qkeras_quantizer",
+        "value-not-representable-in-converted-type:quantized_tanh")] = {
+    "status": "fixed", "commit": "9708184",
+    "what_fails": "QuantizedTanh.convert_qkeras_quantizer never set "
+                  "int_bits (IQuantizer default -1): quantized_tanh(6), "
+                  "values in [-1, 1), was reported as bits=6 int_bits=-1, a "
+                  "type covering only [-1/2, 1/2)",
+    "replayed": "QuantizerFactory().make_quantizer(quantized_tanh(6)) has "
+                "(mode, bits, int_bits, is_signed) == (0, 6, -1, 1) on the "
+                "real code before the fix"}
+_ADD = "qkeras/qtools/quantized_operators/multiplier_impl.py::Adder"
+for _k in (("max", "both-capped", "mixed-sign"), ("max", "no-cap", "mixed-sign"),
+           ("max", "one-sided-cap", "mixed-sign"),
+           ("min", "both-capped", "mixed-sign"), ("min", "both-capped", "signed"),
+           ("min", "both-capped", "unsigned"), ("min", "no-cap", "mixed-sign"),
+           ("min", "one-sided-cap", "mixed-sign"),
+           ("min", "one-sided-cap", "signed"),
+           ("min", "one-sided-cap", "unsigned")):
+  TRIAGE[("C16", "R10", _ADD, "product-%s-exponent-too-%s:%s:%s" % (
+      _k[0], "small" if _k[0] == "max" else "large", _k[1], _k[2]))] = {
+      "what_fails": "the po2 x po2 product type is max(bits)+1 with the "
+                    "sign of either operand; its exponent range "
+                    "(get_min_max_exp) does not contain every sum of two "
+                    "operand exponents when one operand is unsigned "
+                    "(one more exponent bit) or has max_value <= 1 (no "
+                    "exponent sign bit): e.g. relu_po2(3) exponents reach 3, "
+                    "po2(3) reach 1, the product type reports max exponent "
+                    "3; relu_po2(2,max_value=1) reaches 2**-4, "
+                    "relu_po2(2,max_value=2) 2**-2, the product type stops "
+                    "at 2**-4",
+      "replayed": "enumerated with the real classes (PowerOfTwo / "
+                  "ReluPowerOfTwo, bits 2..4, max_val_po2 in {-1,1,2,8}, "
+                  "MultiplierFactory().make_multiplier(w, x).output."
+                  "get_min_max_exp()): the same pairs violate the bound "
+                  "(318 of 576 ordered pairs)"}
